@@ -70,7 +70,9 @@ def decompress (code : Bytes) : Except Err Bytes :=
   if n < 8 then .error (err "code_len < 8")
   else if n > codeMaxSize then .error (err "code_len > CODE_MAX_SIZE")
   else
-    let compStart := if compSize ≤ n then n - compSize else 0
+    if compSize > n then .error (err "code_comp_size > code_len")
+    else
+    let compStart := n - compSize
     if compSize < hdr then .error (err "code_comp_end < 0")
     else if n + addSize > codeMaxSize then .error (err "code_dec_size > CODE_MAX_SIZE")
     else
